@@ -460,6 +460,7 @@ impl Compiler {
         let loop_start = self.builder.current_offset();
 
         // Push per-iteration scope
+        let outer_scope_depth = self.builder.scope_depth();
         self.builder.emit(Op::PushScope);
 
         // Declare and initialize vars from registers (these are the values closures will capture)
@@ -472,8 +473,12 @@ impl Compiler {
             });
         }
 
-        // Push loop context
+        // Push loop context; `break` lands behind the final PopScope below, so it also
+        // leaves the per-iteration scope
         self.push_loop(None);
+        if let Some(ctx) = self.loop_stack.last_mut() {
+            ctx.scope_depth = outer_scope_depth;
+        }
 
         // Compile test (if any)
         let jump_to_end = if let Some(test) = &for_stmt.test {
@@ -531,6 +536,8 @@ impl Compiler {
         }
 
         // If jumping out due to test failure, need to pop scope
+        // (this point is reached with the per-iteration scope still open)
+        self.builder.set_scope_depth(outer_scope_depth + 1);
         self.builder.emit(Op::PopScope);
 
         // Pop loop context
